@@ -15,7 +15,7 @@ structure WF (s : St) : Prop where
   core : Core s
   futOk : match s.fut with
     | some (.multi subs pending uninit _) =>
-        uninit = false ∧ s.taskCount = subs.length ∧ Filled subs s pending ∧ subs = accepted s.senders s.bcArg
+        uninit = false ∧ s.taskCount = subs.length ∧ Filled subs s pending ∧ subs = accepted s.senders s.bcArg ∧ pending ≠ 0
     | some (.direct c _) => accepted s.senders s.bcArg = [c]
     | some (.lazy arg _) => arg = s.bcArg
     | none => True
@@ -87,7 +87,7 @@ theorem finish_spec (subs : List Nat) (s : St) (consume : Nat) (hF : Filled subs
 
 theorem loopPoll_spec (subs : List Nat) (consume : Nat) :
     ∀ (fuel : Nat) (s : St) (pending : Nat), Core s → s.taskCount = subs.length → Filled subs s pending →
-      subs = accepted s.senders s.bcArg →
+      subs = accepted s.senders s.bcArg → pending ≠ 0 →
       WF (loopPoll subs consume fuel s pending).1 ∧
       (loopPoll subs consume fuel s pending).1.senders = s.senders ∧
       (loopPoll subs consume fuel s pending).1.bcArg = s.bcArg ∧
@@ -96,15 +96,15 @@ theorem loopPoll_spec (subs : List Nat) (consume : Nat) :
   intro fuel
   induction fuel with
   | zero =>
-    intro s pending hc htc hF hacc
+    intro s pending hc htc hF hacc hpos
     simp only [loopPoll]
-    exact ⟨⟨hc, ⟨rfl, htc, ⟨hF.len, hF.cnt, hF.src⟩, hacc⟩⟩, trivial, trivial, by intro vals h; simp at h⟩
+    exact ⟨⟨hc, ⟨rfl, htc, ⟨hF.len, hF.cnt, hF.src⟩, hacc, hpos⟩⟩, trivial, trivial, by intro vals h; simp at h⟩
   | succ fuel ih =>
-    intro s pending hc htc hF hacc
+    intro s pending hc htc hF hacc hpos
     simp only [loopPoll]
     by_cases hst : s.stack = []
     · simp only [hst, if_true]
-      exact ⟨⟨hc, ⟨rfl, htc, ⟨hF.len, hF.cnt, hF.src⟩, hacc⟩⟩, trivial, trivial, by intro vals h; simp at h⟩
+      exact ⟨⟨hc, ⟨rfl, htc, ⟨hF.len, hF.cnt, hF.src⟩, hacc, hpos⟩⟩, trivial, trivial, by intro vals h; simp at h⟩
     · simp only [hst, if_false]
       have hps := pollSubs_spec subs s.stack { s with stack := [], countdown := 0 } pending htc
         ⟨hF.len, hF.cnt, hF.src⟩ hc.2.2
@@ -131,7 +131,7 @@ theorem loopPoll_spec (subs : List Nat) (consume : Nat) :
             exact ⟨hok, b⟩
           · simp only [hp0, if_false]
             obtain ⟨w, x, y, z⟩ := ih s1 p' hc1 (by rw [pf.taskCount]; exact htc) hF1
-              (by rw [pf.senders, pf.bcArg]; exact hacc)
+              (by rw [pf.senders, pf.bcArg]; exact hacc) hp0
             exact ⟨w, x.trans pf.senders, y.trans pf.bcArg, z⟩
 
 end NexoVerif.Bcast
